@@ -308,7 +308,7 @@ def run(ctx):
     ctx.exhaustive = True
     ctx.extra["exhaustive_rule"] = "every sequence of <= %d octet-class symbols in each of 6 argument positions (reason, header name, header value, cookie key, cookie value, cookie attribute), one position at a time" % ctx.pick(2, 3)
     nfield = len(scns)
-    for _ in range(ctx.pick(600, 40000)):
+    for _ in range(ctx.pick(600, 20000)):
         scns.append(random_scn(ctx.rng))
     traces = [run_scn(s) for s in scns]
     ctx.extra["per_field_exhaustive_scenarios"] = nfield
